@@ -165,6 +165,7 @@ void DocumentBuilder::proc_begin(const char* name, const bool isTA, const string
         }
     }
 
+    templateFrameDepth = frames.size();
     push_frame(currentTemplate->frame);
     params = frame_t::create();
 }
@@ -172,7 +173,9 @@ void DocumentBuilder::proc_begin(const char* name, const bool isTA, const string
 void DocumentBuilder::proc_end()  // 1 ProcBody
 {
     currentTemplate = nullptr;
-    popFrame();
+    // a label that failed to parse may have left frames (e.g. of a quantifier) behind: drop them with the template's
+    while (frames.size() > templateFrameDepth)
+        popFrame();
 }
 
 /**
@@ -235,6 +238,7 @@ void DocumentBuilder::proc_edge_begin(const char* from, const char* to, const bo
 {
     symbol_t fid, tid;
 
+    edgeFrameDepth = frames.size();
     if (!resolve(from, fid) || (!fid.get_type().is_location() && !fid.get_type().is_branchpoint())) {
         handle_error(TypeException{"$No_such_location_or_branchpoint_(source)"});
         push_frame(frame_t::create(frames.top()));  // dummy frame for upcoming popFrame
@@ -251,7 +255,12 @@ void DocumentBuilder::proc_edge_begin(const char* from, const char* to, const bo
     }
 }
 
-void DocumentBuilder::proc_edge_end(const char* from, const char* to) { popFrame(); }
+void DocumentBuilder::proc_edge_end(const char* from, const char* to)
+{
+    // also drops frames left behind by labels of this edge that failed to parse
+    while (frames.size() > edgeFrameDepth)
+        popFrame();
+}
 
 void DocumentBuilder::proc_select(const char* id) { addSelectSymbolToFrame(id, currentEdge->select, position); }
 
